@@ -103,6 +103,14 @@ def make_param(eng, kind, hint):
         return AssignVal("spin", "list")
     if kind == "none":
         return None
+    if kind == "valmap":
+        return eng.alloc(DictVal(FO.base(eng, T.Label, T.Real, hint), pyclass="dict"))
+    if kind == "labelset":
+        eng.nfresh += 1
+        mem = z3.Const("%s_mem!%d" % (hint, eng.nfresh), z3.ArraySort(T.Label, T.Bool))
+        card = z3.Int("%s_card!%d" % (hint, eng.nfresh))
+        eng.facts.add(z3.And(card >= 0, card == T.CARD(mem)))
+        return eng.alloc(SetVal(mem, card))
     if kind == "rid":
         from . import lists as LS
         return LS.new_rid(eng, hint)
